@@ -330,7 +330,10 @@ func blockOnListChangeWorker(
 
 	verifPoint("blk:before-register", ctx.cs.id, "")
 	ws := blockFn()
-	defer func() { ctx.dsc.ds.leaveListBlock(ws) }()
+	defer func() {
+		_, failed := output.data.(respErrorString)
+		ctx.dsc.ds.leaveListBlock(ws, output.data == nil || failed)
+	}()
 	verifPoint("blk:after-register", ctx.cs.id, "")
 
 	// with notification registered, try operation again immediately
@@ -385,7 +388,7 @@ func blockOnListChangeWorker(
 		// The wake-up took this client out of the wait queues: get back in line, or no
 		// later push would ever wake it. An element pushed in the meantime is picked up
 		// by trying once more after registering.
-		ctx.dsc.ds.leaveListBlock(ws)
+		ctx.dsc.ds.leaveListBlock(ws, false)
 		ws = blockFn()
 		output = op()
 		if output.data != nil {
